@@ -362,6 +362,48 @@ def rule_r6(repo, run):
               "when the object is on the stack", wl.loc(wf))
 
 
+def rule_r7(repo, run):
+    R = run.rule("C18.R7", "names that exist once per class (userdata type, metatable key, method table, constructor name) are "
+                           "built from a class field: two wrapped classes never share a metatable")
+    wl = repo.module("wrapl")
+    am = repo.module("ast")
+    wc = wl.func("Wrapl.wrap_class")
+    per_class = [pyflow.const_str(c.args[0]) for c in ast.walk(wc) if isinstance(c, ast.Call)
+                 and str(wl.seg(c.func)).endswith(".eval_template") and c.args and pyflow.const_str(c.args[0])]
+    if len(per_class) < 4:
+        raise AnalysisError("C18.R7: per-class templates evaluated by Wrapl.wrap_class not found")
+    do = am.func("LibraryNode.default_options")
+    templates = {}
+    for c in ast.walk(do):
+        if isinstance(c, ast.Call):
+            for k in c.keywords:
+                if k.arg and k.arg.endswith("_template"):
+                    v = pyflow.const_str(k.value)
+                    if v is None and isinstance(k.value, ast.Constant):
+                        v = k.value.value
+                    if v is None:
+                        try:
+                            v = ast.literal_eval(k.value)
+                        except Exception:
+                            v = None
+                    templates[k.arg] = v
+    # one object per class *instance layout* may be shared (the member name inside the userdata struct)
+    SHARED_OK = {"LUA_userdata_member": "the name of the member inside each class's userdata struct"}
+    n = 0
+    for name in per_class:
+        if name in SHARED_OK:
+            continue
+        t = templates.get(name + "_template")
+        if t is None:
+            raise AnalysisError("C18.R7: default of %s_template not found" % name)
+        n += 1
+        run.check(R, "ast.LibraryNode.default_options:%s_template" % name, re.search(r"\{(cxx_class|class_\w+|cxx_type)\}", t) is not None,
+                  "%s_template is %r: it is evaluated once per class but does not contain the class: every wrapped class gets "
+                  "the same %s, so same-named methods and __gc of a later class replace those of an earlier one" % (name, t, name),
+                  am.loc(do))
+    run.floor(R, "per-class Lua name templates", n, 4)
+
+
 def run(repo, run, tier):
     tables.check_model_assumptions(repo)
     types = tables.TypeTable(repo)
@@ -371,3 +413,4 @@ def run(repo, run, tier):
     rule_x(repo, run)
     rule_r5(repo, run)
     rule_r6(repo, run)
+    rule_r7(repo, run)
